@@ -31,6 +31,28 @@ class _Sub(ast.NodeTransformer):
         return n
 
 
+def _eval_bool(e, valuation, norm):
+    """three-valued truth of a boolean combination of atoms under the valuation (None: undecided)"""
+    if isinstance(e, ast.Constant):
+        return bool(e.value)
+    k = norm(e)
+    if k in valuation:
+        return valuation[k]
+    if isinstance(e, ast.UnaryOp) and isinstance(e.op, ast.Not):
+        v = _eval_bool(e.operand, valuation, norm)
+        return None if v is None else (not v)
+    if isinstance(e, ast.BoolOp):
+        vals = [_eval_bool(v, valuation, norm) for v in e.values]
+        if isinstance(e.op, ast.And):
+            if any(v is False for v in vals):
+                return False
+            return True if all(v is True for v in vals) else None
+        if any(v is True for v in vals):
+            return True
+        return False if all(v is False for v in vals) else None
+    return None
+
+
 def _strip_not(e):
     flip = False
     while isinstance(e, ast.UnaryOp) and isinstance(e.op, ast.Not):
@@ -105,6 +127,9 @@ def walk(fn, valuation: Dict[str, bool], norm: Callable[[ast.AST], str], max_ste
                     break
             if val is None and rebound:
                 val = _never_none(_Sub(env).visit(clone(core)))
+            if val is None:
+                # a local holding a conjunction / disjunction / negation of atoms (`ok = isinstance(x, A) and x.g == g`): decided from its parts
+                val = _eval_bool(_fold_lookup(_fold_ifexp(_Sub(env).visit(clone(core)), valuation, norm), EQUALITIES, norm), valuation, norm)
             if val is None:
                 return ("unknown", f"test `{etxt if rebound else txt}` is not one of the atoms")
             val = (not val) if flip else val
